@@ -12,6 +12,10 @@ Open Scope Z_scope.
    wait-before >= 0; cf. Model/Config.v:cf_periods_validate, related in Proofs/ShutdownP.v *)
 Definition sd_startable (nonneg : bool) (W G : Z) : bool := negb (nonneg && (W <? 0)) && (W <? G).
 
+(* What the request makes the process do (proxy to the upstream; a login callback exchanging the code at the provider's
+   token endpoint and, after a key rotation there, refreshing the JWKS; a session refresh; a logout) does not appear: the
+   back-channel work of a request is part of its service time, and http.Server.Shutdown waits for the connection whatever
+   the handler is doing. *)
 Record sd_req := mk_sd_req { sd_arrival : Z; sd_service : Z }.
 
 (* time.Sleep of a non-positive duration returns immediately *)
